@@ -82,6 +82,10 @@ class FakeOS:
         self.closed.append(fd)
 
     def write(self, fd, data):
+        if not isinstance(fd, int):
+            raise TypeError("an integer is required (got type %s)" % type(fd).__name__)
+        if fd in self.closed:
+            raise OSError(9, "Bad file descriptor")
         i = self.nwrites
         self.nwrites += 1
         if i in self.fail_writes:
